@@ -180,3 +180,72 @@ theorem hArith_val {o : Arith} {a b : Nat} {H H' : Heap α} {r : Nat} (ha : a < 
   · have := alloc_grows k3; omega
 
 end Qeep
+
+namespace Qeep
+variable {α : Type} [Scalar α]
+
+theorem hBroadcastPairMM_val {a b : Nat} {H H' : Heap α} {a' b' : Nat} (ha : a < H.size) (hb : b < H.size)
+    (h : hBroadcastPairMM a b H = .ok ((a', b'), H')) :
+    vBroadcastPairMM (H.val a) (H.val b) = .ok (H'.val a', H'.val b') ∧ Extends H H' ∧ a' < H'.size ∧ b' < H'.size := by
+  unfold hBroadcastPairMM at h
+  obtain ⟨H0, H0', g0, k1⟩ := bind_ok h
+  obtain ⟨e0, e0'⟩ := getHeap_ok g0
+  rw [e0, e0'] at k1
+  obtain ⟨a1, Ha, g1, k2⟩ := bind_ok k1
+  obtain ⟨b1, Hb, g2, k3⟩ := bind_ok k2
+  have hp : (pure (a1, b1) : HM α (Nat × Nat)) Hb = .ok ((a1, b1), Hb) := rfl
+  rw [hp] at k3
+  injection k3 with k3
+  injection k3 with e1 e2
+  injection e1 with ea eb
+  subst ea eb e2
+  obtain ⟨va, ra, xa⟩ := hBroadcast_val g1
+  obtain ⟨vb, rb, xb⟩ := hBroadcast_val g2
+  have hbv : Ha.val b = H.val b := xa.val hb
+  have hlt : a1 < Ha.size := alloc_size_lt g1
+  have ha1 : Hb.val a1 = Ha.val a1 := xb.val hlt
+  refine ⟨?_, xa.trans xb, ?_, ?_⟩
+  · unfold vBroadcastPairMM vBroadcastN
+    rw [hbv] at vb
+    simp only [bind, Out.bind]
+    rw [va]
+    simp only []
+    rw [vb]
+    simp only [pure, ha1]
+  · exact Nat.lt_of_lt_of_le hlt xb.1
+  · exact alloc_size_lt g2
+
+/-- MatMul with implicit batch broadcasting: the value is `vMatMul` of the operand values -/
+theorem hMatMul_val {a b : Nat} {H H' : Heap α} {r : Nat} (ha : a < H.size) (hb : b < H.size)
+    (h : hMatMul a b H = .ok (r, H')) :
+    vMatMul (H.val a) (H.val b) = .ok (H'.val r) ∧ H.size ≤ r ∧ r < H'.size ∧ Extends H H' := by
+  unfold hMatMul at h
+  obtain ⟨H0, H0', g0, k1⟩ := bind_ok h
+  obtain ⟨e0, e0'⟩ := getHeap_ok g0
+  rw [e0, e0'] at k1
+  by_cases hv : validMatMul (H.val a).dims (H.val b).dims = true
+  · rw [if_pos hv] at k1
+    obtain ⟨p, H1, h1, h2⟩ := bind_ok k1
+    obtain ⟨a', b'⟩ := p
+    obtain ⟨vp, xp, _, _⟩ := hBroadcastPairMM_val ha hb h1
+    obtain ⟨H3, H3', g3, k2⟩ := bind_ok h2
+    obtain ⟨e3, e3'⟩ := getHeap_ok g3
+    rw [e3, e3'] at k2
+    obtain ⟨t, H4, g4, k3⟩ := bind_ok k2
+    obtain ⟨e4, e4'⟩ := liftOut_ok g4
+    rw [e4'] at k3
+    obtain ⟨rr, vr, _, xr⟩ := alloc_ok k3
+    refine ⟨?_, ?_, ?_, xp.trans xr⟩
+    · unfold vMatMul
+      rw [if_pos hv]
+      simp only [bind, Out.bind]
+      rw [vp]
+      simp only []
+      rw [e4, vr]
+    · have := xp.1; omega
+    · have := alloc_grows k3; omega
+  · rw [if_neg hv] at k1
+    obtain ⟨e, _⟩ := liftOut_ok k1
+    cases e
+
+end Qeep
